@@ -106,7 +106,7 @@ def main():
         for i, s in enumerate([b"\x05\x00\x01\x02\x01\x03\x01\x04\x01\x05", b"\x0c" + bytes(range(1, 40)), b"\x03\x01\x01\x0a\x01\x1f\x01\x02"]):
             with open(os.path.join(corpus, f"seed{i}"), "wb") as f:
                 f.write(s)
-    argv = [sys.argv[0], f"-runs={runs}", f"-seed={seed if seed else 1}", "-max_len=64", "-print_final_stats=0", "-verbosity=0",
+    argv = [sys.argv[0], f"-artifact_prefix={outdir}/", f"-runs={runs}", f"-seed={seed if seed else 1}", "-max_len=64", "-print_final_stats=0", "-verbosity=0",
             corpus]
     atheris.Setup(argv, one)
     atheris.Fuzz()
